@@ -2,6 +2,7 @@
 use crate::common::*;
 use crate::obs::*;
 use crate::scope::*;
+use crate::scalar::{DD, DD_LENIENT};
 use crate::table::{exact_omegas, precompute, Class};
 use oracle::graph::{cumulative_probs, OGraph};
 use oracle::num::*;
@@ -247,6 +248,75 @@ pub fn check_selection(
     }
 }
 
+/// wider-than-f64 answers: u = c_k ± 2^-75 as a double-double; the selection must follow the exact comparison
+/// (an implementation that narrows u to f64 before scanning cannot tell the two apart)
+fn check_selection_dd(g: &OGraph, d: &Driven, path: &[usize], target: usize, cum: &[(usize, Q)], xbase: &[f64], upos: usize, acc: &mut Acc) {
+    let n = cum.len();
+    let st = Settings { stability: None, debug: true, metadata: false };
+    let ed: EdgeData<DD> = (0..g.ne()).map(|_| (None, vec![DD::from(0.0); g.dim])).collect();
+    let delta = qf(2f64.powi(-75));
+    let mut cases: Vec<(DD, Option<usize>, String)> = vec![];
+    for k in 0..n - 1 {
+        for sign in [-1i64, 1] {
+            let c = &cum[k].1;
+            let hi = q_to_f64(c);
+            if !(hi > 0.0 && hi < 1.0) {
+                continue;
+            }
+            let rem = c - qf(hi) + qi(sign) * &delta;
+            let lo = q_to_f64(&rem);
+            let s = hi + lo;
+            let u = DD { hi: s, lo: lo - (s - hi) };
+            let expected = if sign < 0 { cum[k].0 } else { cum[k + 1].0 };
+            cases.push((u, Some(expected), format!("c_{k} {} 2^-75", if sign < 0 { "-" } else { "+" })));
+        }
+    }
+    // just below one: must select (the last) edge, never panic
+    cases.push((DD { hi: 1.0, lo: -(2f64.powi(-70)) }, Some(cum[n - 1].0), "1 - 2^-70".to_string()));
+    for (u, expected, label) in cases {
+        let mut x: Vec<DD> = xbase.iter().map(|v| DD::from(*v)).collect();
+        x[upos] = u;
+        DD_LENIENT.with(|l| *l.borrow_mut() = true);
+        let lg = CaptureLogger::default();
+        let out = d.sampler.sample_with(&x, &ed, &st, &lg);
+        DD_LENIENT.with(|l| *l.borrow_mut() = false);
+        let log = lg.into_rec();
+        acc.inc("dd_executions");
+        let case = json!({"engine": "c06", "graph": graph_json(g), "path": path, "target": target, "u": jf(u.hi), "u_lo": jf(u.lo), "dd": true});
+        let xs = match &log.x_unrescaled {
+            Some(x) => x,
+            None => {
+                if let Outcome::Panic(p) = &out {
+                    acc.violate(
+                        format!("C06/panic:wide-scalar/{}/{target}/{}", gkey(g), label),
+                        "total on [0,1): no panic",
+                        format!("with a double-double scalar, u = {label} at subgraph {target:#b}: {}", p.chars().take(140).collect::<String>()),
+                        case,
+                    );
+                }
+                continue;
+            }
+        };
+        let order = match order_from_log(xs) {
+            Some(o) => o,
+            None => continue,
+        };
+        if order[..path.len()] != path[..] {
+            continue;
+        }
+        let selected = order[path.len()];
+        acc.inc("dd_selections_judged");
+        if Some(selected) != expected {
+            acc.violate(
+                format!("C06/wrong-edge:wide-scalar/{}/{target}/{}", gkey(g), label),
+                "first edge whose running sum reaches u (any scalar type)",
+                format!("with a double-double scalar, u = {label} at subgraph {target:#b}: selected edge {selected}, exact comparison selects {expected:?}"),
+                case,
+            );
+        }
+    }
+}
+
 pub fn check_graph(g: &OGraph, acc: &mut Acc, both_paths: bool) {
     let d = match drive_setup(g) {
         Some(d) => d,
@@ -282,6 +352,9 @@ pub fn check_graph(g: &OGraph, acc: &mut Acc, both_paths: bool) {
                     witnessed.extend(w);
                 }
             }
+            if pi == 0 {
+                check_selection_dd(g, &d, path, target, &cum, &xbase, upos, acc);
+            }
         }
         acc.add("lattice_transitions", target.count_ones() as u64);
     }
@@ -316,7 +389,7 @@ pub fn run(ctx: &Ctx) -> i32 {
     let labels4 = [0u8, 1, 2, 3];
     let ext4 = external_alphabet(&labels4, 9);
     for (i, s) in unordered_pair_shapes(&labels4, 4).into_iter().enumerate() {
-        if i % tier.pick(211, 13) == 0 {
+        if i % tier.pick(431, 13) == 0 {
             shapes.push((s, ext4.clone()));
         }
     }
@@ -339,9 +412,18 @@ pub fn run(ctx: &Ctx) -> i32 {
         if ne >= 5 {
             was.truncate(6);
         }
-        // the witness of DESIGN §6 (F1) uses these weights
+        // the witness of DESIGN §6 (F1) uses these weights; plus numerically generic (non-dyadic, unequal) assignments
         if ne == 3 {
             was.push(vec![2.0, 1.25, 2.0 / 3.0]);
+            was.push(vec![0.61, 0.7, 0.64]);
+            was.push(vec![1.2, 0.66, 0.9]);
+        }
+        if ne == 2 {
+            was.push(vec![0.61, 0.7]);
+            was.push(vec![0.66, 1.2]);
+        }
+        if ne == 4 {
+            was.push(vec![0.61, 0.7, 0.64, 0.8]);
         }
         for massive in mass_patterns(ne) {
             if ne >= 5 && !(massive.iter().filter(|&&m| m).count() <= 1 || massive.iter().all(|&m| m)) {
@@ -350,7 +432,7 @@ pub fn run(ctx: &Ctx) -> i32 {
             for ext in exts {
                 let g0 = mk(shape, &massive, &vec![1.0; ne], ext, 4);
                 let pre = precompute(&g0);
-                for d in tier.pick(vec![3usize, 4], vec![1, 2, 3, 4, 5, 6]) {
+                for d in tier.pick(if i % 2 == 0 { vec![3usize, 4] } else { vec![3usize] }, vec![1, 2, 3, 4, 5, 6]) {
                     let mut wl = was.clone();
                     wl.push(vec![d as f64; ne]);
                     for w in &wl {
@@ -383,12 +465,12 @@ pub fn run(ctx: &Ctx) -> i32 {
     );
     let fin = Finish {
         level: "model_checking",
-        rule: "every oracle-accepted configuration of the scope x every subset g with |g|>=2 (state) is reached on the real sampler along the index-ordered path (thorough: also the reverse path) with all xi = 1/2, and every u of the boundary alphabet is given at g; the removal order is read from the strictly decreasing logged parameters; transitions = (g,e) pairs witnessed as selected; non-trivial = selections judged against the exact cumulative sums of the implementation's own table".into(),
+        rule: "every oracle-accepted configuration of the scope x every subset g with |g|>=2 (state) is reached on the real sampler along the index-ordered path (thorough: also the reverse path) with all xi = 1/2, and every u of the boundary alphabet is given at g; the removal order is read from the strictly decreasing logged parameters; transitions = (g,e) pairs witnessed as selected; additionally every interior boundary c_k is approached from both sides by a double-double answer c_k ± 2^-75 (and 1 - 2^-70), which f64 cannot represent; non-trivial = selections judged against the exact cumulative sums of the implementation's own table".into(),
         states: acc.get("states"),
         transitions: acc.get("transitions_witnessed"),
         traces: acc.get("executions"),
         evaluations: acc.get("executions"),
-        distinct_nontrivial: acc.get("selections_judged"),
+        distinct_nontrivial: acc.get("selections_judged") + acc.get("dd_selections_judged"),
         exhaustive: true,
         bounds: json!({"G-small": "ordered pairs over {0,1,2}, E=2..3", "G-mid": "E=4 strided", "D": tier.pick("3,4", "1..6"), "G5 margin": "1e-13*|g|"}),
         assumptions: vec!["removal order observed through the `log` feature (unrescaled parameters strictly decrease when all xi = 1/2)".into()],
@@ -402,6 +484,7 @@ pub fn replay(_ctx: &Ctx, case: &Value) -> i32 {
     let path: Vec<usize> = case["path"].as_array().unwrap().iter().map(|v| v.as_u64().unwrap() as usize).collect();
     let target = case["target"].as_u64().unwrap() as usize;
     let u = unjf(&case["u"]);
+    let is_dd = case["dd"].as_bool().unwrap_or(false);
     let d = match drive_setup(&g) {
         Some(d) => d,
         None => {
@@ -418,7 +501,11 @@ pub fn replay(_ctx: &Ctx, case: &Value) -> i32 {
     }
     let cum_f: Vec<f64> = cum.iter().map(|c| q_to_f64(&c.1)).collect();
     let (xbase, _) = point_for(g.ne(), g.full(), &path, 0.5, &d);
-    check_selection(&g, &d, &path, target, u, &cum, &cum_f, &xbase, 2 * path.len(), &mut acc, &mut w);
+    if is_dd {
+        check_selection_dd(&g, &d, &path, target, &cum, &xbase, 2 * path.len(), &mut acc);
+    } else {
+        check_selection(&g, &d, &path, target, u, &cum, &cum_f, &xbase, 2 * path.len(), &mut acc, &mut w);
+    }
     eprintln!("  witnessed: {w:?}");
     for v in &acc.violations {
         eprintln!("  reproduced: [{}] {}", v.clause, v.what);
